@@ -23,6 +23,9 @@ static void vr_stuck(const char *w) {}
 static void post_switch_checks(int exiting)
 {
     switched = 1;
+#if PRIM == 1
+    VR_ASSERT(!stolen, "ABT_thread_yield_to never switches into a target that another stream popped meanwhile (it would run on two streams at once)");
+#endif
     VR_ASSERT(ES0.p_thread == &ULT1.thread, "the named ULT runs next on the calling stream");
     VR_ASSERT(ULT1.thread.state.val == ABT_THREAD_STATE_RUNNING && ULT1.thread.p_last_xstream == &ES0, "the target is RUNNING on this stream");
     VR_ASSERT(!sp_in[1], "the target is in no pool while it runs (it cannot be scheduled a second time)");
